@@ -193,6 +193,22 @@ class World:
                     need -= 1
                 elif was_blocked and k_ not in held:
                     self.ctx.report(f"blocked-by-different-key[{self.kind}]", f"[{self.kind}] poll parked/ended an invocation with key {k_} although no invocation with that key was PENDING or RUNNING (mode {self.mode}, keys {self.keys}): different keys must not block one another", rep)
+        # no slot left idle: with n slots, as many invocations are handed out as there are candidates whose key is free (awaited ones first)
+        if impl.startswith("ok"):
+            held2 = {self.runkey(self.invs[i]["args"]) for i, st in before.items() if st in ("pending", "running")} if self.mode != "disabled" else set()
+            could = 0
+            for i in bs + [q for q in qbefore if q not in bs]:
+                if could >= n:
+                    break
+                if i in before and before[i] in ("registered", "rerouted", "retry"):
+                    k2 = self.runkey(self.invs[i]["args"]) if self.mode != "disabled" else ("free", i)
+                    if k2 not in held2:
+                        could += 1
+                        if self.mode != "disabled":
+                            held2.add(k2)
+            if len(got) < could:
+                self.ctx.report(f"slot-left-idle[{self.kind}]", f"[{self.kind}] get_invocations_to_run({n}) handed out {len(got)} invocation(s) although {could} candidates with a free key were available "
+                                                               f"(awaited first: {len(bs)} reported as blocking; mode {self.mode}, keys {self.keys}): a slot stays idle and an awaited sub-task may never start", rep)
         # blocked outcomes
         for i in before:
             if before[i] in ("registered", "rerouted", "retry") and after[i] != before[i]:
